@@ -35,8 +35,11 @@ def seed():
     return int(os.environ.get('VERIF_SEED', '0') or 0)
 
 
+_SCRATCH_N = __import__('itertools').count()
+
+
 def scratch_dir(name):
-    d = os.path.join(SCRATCH, f'{name}-{os.getpid()}')
+    d = os.path.join(SCRATCH, f'{name}-{os.getpid()}-{next(_SCRATCH_N)}')
     shutil.rmtree(d, ignore_errors=True)
     os.makedirs(d, exist_ok=True)
     return d
